@@ -12,6 +12,7 @@ import (
 	"errors"
 	"fmt"
 	"os"
+	"runtime/pprof"
 	"strings"
 	"sync"
 	"testing"
@@ -75,99 +76,57 @@ type c35Inputs struct {
 	anyStart bool
 }
 
-func c35Build(c *c35Case) c35Inputs {
-	var in c35Inputs
+// c35Cache memoises the four input components per worker, keyed by the
+// per-partition state tuple of that component (the functions under test only
+// read their inputs). nil disables it (replay).
+type c35Cache struct {
+	group  map[uint32]DescribedGroup
+	commit map[uint32]OffsetResponses
+	starts map[uint32]ListedOffsets
+	ends   map[uint32]ListedOffsets
+}
+
+func newC35Cache() *c35Cache {
+	return &c35Cache{map[uint32]DescribedGroup{}, map[uint32]OffsetResponses{}, map[uint32]ListedOffsets{}, map[uint32]ListedOffsets{}}
+}
+
+// c35Each calls fn(topic, partition, state) in topic-major order.
+func c35Each(c *c35Case, fn func(t string, p int32, ps c35Part)) {
+	k := 0
+	for ti, np := range c.Shape {
+		t := c35Topic(ti)
+		for pi := 0; pi < np; pi++ {
+			fn(t, int32(pi), c.Parts[k])
+			k++
+		}
+	}
+}
+
+func c35BuildGroup(c *c35Case) DescribedGroup {
 	g := c.Global
-	in.group = DescribedGroup{Group: "g", ProtocolType: "consumer", State: "Stable"}
+	group := DescribedGroup{Group: "g", ProtocolType: "consumer", State: "Stable"}
 	if g.Members == 0 {
-		in.group.State = "Empty"
+		group.State = "Empty"
 	}
 	var topics []string
 	for ti := range c.Shape {
 		topics = append(topics, c35Topic(ti))
 	}
 	assigns := make([]*kmsg.ConsumerMemberAssignment, g.Members)
-	for mi := 0; mi < g.Members; mi++ {
+	for mi := range assigns {
 		assigns[mi] = &kmsg.ConsumerMemberAssignment{}
 	}
-	if g.EmptyMaps {
-		in.commit, in.starts, in.ends = OffsetResponses{}, ListedOffsets{}, ListedOffsets{}
-	}
-	k := 0
-	for ti, np := range c.Shape {
-		t := topics[ti]
-		if g.EmptyMaps {
-			in.commit[t] = map[int32]OffsetResponse{}
-			in.starts[t] = map[int32]ListedOffset{}
-			in.ends[t] = map[int32]ListedOffset{}
+	c35Each(c, func(t string, p int32, ps c35Part) {
+		if ps.Assign < 0 || ps.Assign >= g.Members {
+			return
 		}
-		perMember := make([][]int32, g.Members)
-		for pi := 0; pi < np; pi++ {
-			ps := c.Parts[k]
-			k++
-			p := int32(pi)
-			if ps.Assign >= 0 && ps.Assign < g.Members {
-				perMember[ps.Assign] = append(perMember[ps.Assign], p)
-			}
-			if ps.Commit != cAbsent {
-				or := OffsetResponse{Offset: Offset{Topic: t, Partition: p, LeaderEpoch: -1}}
-				switch ps.Commit {
-				case cNeg:
-					or.At = -1
-				case cAt0:
-					or.At = 0
-				case cAt3:
-					or.At = 3
-				case cAt7:
-					or.At = 7
-				case cErr:
-					or.At, or.Err = 3, errC35Commit
-				}
-				if in.commit == nil {
-					in.commit = OffsetResponses{}
-				}
-				if in.commit[t] == nil {
-					in.commit[t] = map[int32]OffsetResponse{}
-				}
-				in.commit[t][p] = or
-			}
-			if ps.End != oAbsent {
-				lo := ListedOffset{Topic: t, Partition: p, Timestamp: -1, Offset: c35End, LeaderEpoch: -1}
-				if ps.End == oErr {
-					lo.Offset, lo.Err = -1, errC35End
-				}
-				if in.ends == nil {
-					in.ends = ListedOffsets{}
-				}
-				if in.ends[t] == nil {
-					in.ends[t] = map[int32]ListedOffset{}
-				}
-				in.ends[t][p] = lo
-			}
-			if ps.Start != oAbsent {
-				in.anyStart = true
-				lo := ListedOffset{Topic: t, Partition: p, Timestamp: -1, Offset: c35Start, LeaderEpoch: -1}
-				switch ps.Start {
-				case oErr:
-					lo.Offset, lo.Err = -1, errC35Start
-				case oHigh:
-					lo.Offset = c35StartHigh
-				}
-				if in.starts == nil {
-					in.starts = ListedOffsets{}
-				}
-				if in.starts[t] == nil {
-					in.starts[t] = map[int32]ListedOffset{}
-				}
-				in.starts[t][p] = lo
-			}
+		a := assigns[ps.Assign]
+		if n := len(a.Topics); n > 0 && a.Topics[n-1].Topic == t {
+			a.Topics[n-1].Partitions = append(a.Topics[n-1].Partitions, p)
+			return
 		}
-		for mi := 0; mi < g.Members; mi++ {
-			if len(perMember[mi]) > 0 {
-				assigns[mi].Topics = append(assigns[mi].Topics, kmsg.ConsumerMemberAssignmentTopic{Topic: t, Partitions: perMember[mi]})
-			}
-		}
-	}
+		a.Topics = append(a.Topics, kmsg.ConsumerMemberAssignmentTopic{Topic: t, Partitions: []int32{p}})
+	})
 	for mi := 0; mi < g.Members; mi++ {
 		m := DescribedGroupMember{MemberID: fmt.Sprintf("m%d", mi), ClientID: "c", ClientHost: "h"}
 		m.Assigned = GroupMemberAssignment{assigns[mi]}
@@ -182,7 +141,113 @@ func c35Build(c *c35Case) c35Inputs {
 		if g.Join {
 			m.Join = GroupMemberMetadata{&kmsg.ConsumerMemberMetadata{Topics: topics}}
 		}
-		in.group.Members = append(in.group.Members, m)
+		group.Members = append(group.Members, m)
+	}
+	return group
+}
+
+func c35BuildCommit(c *c35Case) OffsetResponses {
+	var out OffsetResponses
+	if c.Global.EmptyMaps {
+		out = OffsetResponses{}
+		for ti := range c.Shape {
+			out[c35Topic(ti)] = map[int32]OffsetResponse{}
+		}
+	}
+	c35Each(c, func(t string, p int32, ps c35Part) {
+		if ps.Commit == cAbsent {
+			return
+		}
+		or := OffsetResponse{Offset: Offset{Topic: t, Partition: p, LeaderEpoch: -1}}
+		switch ps.Commit {
+		case cNeg:
+			or.At = -1
+		case cAt0:
+			or.At = 0
+		case cAt3:
+			or.At = 3
+		case cAt7:
+			or.At = 7
+		case cErr:
+			or.At, or.Err = 3, errC35Commit
+		}
+		if out == nil {
+			out = OffsetResponses{}
+		}
+		if out[t] == nil {
+			out[t] = map[int32]OffsetResponse{}
+		}
+		out[t][p] = or
+	})
+	return out
+}
+
+func c35BuildListed(c *c35Case, start bool) ListedOffsets {
+	var out ListedOffsets
+	if c.Global.EmptyMaps {
+		out = ListedOffsets{}
+		for ti := range c.Shape {
+			out[c35Topic(ti)] = map[int32]ListedOffset{}
+		}
+	}
+	c35Each(c, func(t string, p int32, ps c35Part) {
+		st := ps.End
+		lo := ListedOffset{Topic: t, Partition: p, Timestamp: -1, Offset: c35End, LeaderEpoch: -1}
+		errv := errC35End
+		if start {
+			st, lo.Offset, errv = ps.Start, c35Start, errC35Start
+		}
+		switch st {
+		case oAbsent:
+			return
+		case oErr:
+			lo.Offset, lo.Err = -1, errv
+		case oHigh:
+			lo.Offset = c35StartHigh
+		}
+		if out == nil {
+			out = ListedOffsets{}
+		}
+		if out[t] == nil {
+			out[t] = map[int32]ListedOffset{}
+		}
+		out[t][p] = lo
+	})
+	return out
+}
+
+func c35Build(c *c35Case, cache *c35Cache) c35Inputs {
+	var in c35Inputs
+	var ka, kc, ks, ke uint32
+	for _, ps := range c.Parts {
+		ka = ka*4 + uint32(ps.Assign+1)
+		kc = kc*8 + uint32(ps.Commit)
+		ks = ks*4 + uint32(ps.Start)
+		ke = ke*4 + uint32(ps.End)
+		if ps.Start != oAbsent {
+			in.anyStart = true
+		}
+	}
+	if cache == nil {
+		in.group, in.commit, in.starts, in.ends = c35BuildGroup(c), c35BuildCommit(c), c35BuildListed(c, true), c35BuildListed(c, false)
+		return in
+	}
+	var ok bool
+	if in.group, ok = cache.group[ka]; !ok {
+		in.group = c35BuildGroup(c)
+		cache.group[ka] = in.group
+	}
+	if in.commit, ok = cache.commit[kc]; !ok {
+		in.commit = c35BuildCommit(c)
+		cache.commit[kc] = in.commit
+	}
+	if in.starts, ok = cache.starts[ks]; !ok {
+		in.starts = c35BuildListed(c, true)
+		cache.starts[ks] = in.starts
+	}
+	if in.ends, ok = cache.ends[ke]; !ok {
+		in.ends = c35BuildListed(c, false)
+		cache.ends[ke] = in.ends
 	}
 	return in
 }
@@ -224,13 +289,13 @@ type c35Obs struct {
 }
 
 // c35Check runs the real code on one case; sig is an outcome signature.
-func c35Check(c *c35Case) (fail *c35Fail, sig string, obs c35Obs) {
+func c35Check(c *c35Case, cache *c35Cache) (fail *c35Fail, sig string, obs c35Obs) {
 	defer func() {
 		if p := recover(); p != nil {
 			fail = &c35Fail{"panic", fmt.Sprintf("panicked: %v", p)}
 		}
 	}()
-	in := c35Build(c)
+	in := c35Build(c, cache)
 	type fnT struct {
 		name string
 		fn   func() GroupLag
@@ -248,13 +313,11 @@ func c35Check(c *c35Case) (fail *c35Fail, sig string, obs c35Obs) {
 	for _, f := range fns {
 		l := f.fn()
 		sorted := l.Sorted()
-		count := map[[2]int]int{}
+		var count [2][2]int
 		for _, e := range sorted {
-			ti := -1
-			if len(e.Topic) == 2 && e.Topic[0] == 't' {
-				ti = int(e.Topic[1] - '0')
+			if len(e.Topic) == 2 && e.Topic[0] == 't' && e.Topic[1]-'0' < 2 && e.Partition >= 0 && e.Partition < 2 {
+				count[e.Topic[1]-'0'][e.Partition]++
 			}
-			count[[2]int{ti, int(e.Partition)}]++
 		}
 		var sb strings.Builder
 		k := 0
@@ -266,7 +329,7 @@ func c35Check(c *c35Case) (fail *c35Fail, sig string, obs c35Obs) {
 				assigned := ps.Assign >= 0 && ps.Assign < c.Global.Members && !(ps.Assign == 1 && c.Global.M1Kind != 0)
 				committed := ps.Commit != cAbsent
 				e, ok := l.Lookup(t, int32(pi))
-				n := count[[2]int{ti, pi}]
+				n := count[ti][pi]
 				if !assigned && !committed {
 					if ok {
 						obs.listedOnly++
@@ -409,12 +472,17 @@ func c35Run(r *ev.Run, st c35Stage, obsTot *c35Obs, obsMu *sync.Mutex) int64 {
 				sigs := map[string]struct{}{}
 				var lo c35Obs
 				c := c35Case{Shape: st.shape, Global: g, Parts: make([]c35Part, np)}
+				cache := newC35Cache()
 				for {
 					mu.Lock()
 					from := next
 					next += chunk
 					mu.Unlock()
-					if from >= n || r.Violations() > 100 {
+					if from >= n {
+						break
+					}
+					if r.Violations() > 100 {
+						r.NotExhaustive("stopped after more than 100 violations")
 						break
 					}
 					to := from + chunk
@@ -427,7 +495,7 @@ func c35Run(r *ev.Run, st c35Stage, obsTot *c35Obs, obsMu *sync.Mutex) int64 {
 							c.Parts[i] = dom[x%int64(len(dom))]
 							x /= int64(len(dom))
 						}
-						f, sig, o := c35Check(&c)
+						f, sig, o := c35Check(&c, cache)
 						lo.listedOnly += o.listedOnly
 						lo.listedOnlyMismatch += o.listedOnlyMismatch
 						if o.mismatchWhat != "" && lo.mismatchWhat == "" {
@@ -476,7 +544,7 @@ func TestVerifC35(t *testing.T) {
 		if err := json.Unmarshal(b, &v); err != nil {
 			ev.InfraError("replay: %v", err)
 		}
-		f, _, _ := c35Check(&v.Artefact.Case)
+		f, _, _ := c35Check(&v.Artefact.Case, nil)
 		if f != nil {
 			fmt.Printf("REPLAY: VIOLATION key=%s\n  %s\n", f.key, f.what)
 			os.Exit(1)
@@ -485,9 +553,14 @@ func TestVerifC35(t *testing.T) {
 		os.Exit(0)
 	}
 
+	if pp := os.Getenv("VERIF_PPROF"); pp != "" {
+		pf, _ := os.Create(pp)
+		pprof.StartCPUProfile(pf)
+	}
 	r := ev.New("C35", "exploration")
 	r.Rule("1-2 topics x 1-2 partitions; each partition independently: unassigned / assigned to member 0 / member 1; commit in {absent, 0, 3, 7, errored} (thorough adds present-at -1); end offset in {absent, 5, errored}; start offset in {absent, 2, errored} (thorough adds 9 > end); groups: empty, 1 member, 2 members, member 1 with a connect or raw (undecodable) assignment; join metadata present or not; inputs missing as nil / absent keys or as empty maps; without start offsets CalculateGroupLag, WithStartOffsets(nil) and WithStartOffsets(map) are all run. 3- and 4-partition shapes use the reduced domains listed in stage_domains. distinct = distinct outcome signatures (lag, error, member-nil per reported partition, total)")
-	r.Assume("a partition 'committed by the group' is one present in the commit set (errored or not); present with At<0 and no error counts as nothing committed for the formula",
+	r.Assume("the functions under test do not modify their inputs (input maps are memoised per worker and reused between cases)",
+		"a partition 'committed by the group' is one present in the commit set (errored or not); present with At<0 and no error counts as nothing committed for the formula",
 		"partitions that are neither assigned nor committed but appear in the listed end offsets of a reported topic are outside the statement: they are counted (listed_only_*) and compared with the same formula as an observation, never as a violation",
 		"a partition assigned to a member whose assignment is not of consumer type is treated as unassigned (GroupMemberAssignment doc: only consumer assignments name partitions)")
 
@@ -526,12 +599,13 @@ func TestVerifC35(t *testing.T) {
 	if ev.Thorough() {
 		add("small-full", [][]int{{1}, {2}, {1, 1}}, c35Domain(allA, commitsT, offs3, startsT), globalsAll)
 		add("three-partitions", [][]int{{1, 2}, {2, 1}}, c35Domain(allA, commitsQ, offs3, offs3), []c35Global{g2, g2j, g2raw, g1j, g0, g0e})
-		add("four-partitions", [][]int{{2, 2}}, c35Domain(allA, []int{cAbsent, cAt3, cAt7, cErr}, offs3, []int{oAbsent, oOK}), []c35Global{g2, g1j})
+		add("four-partitions", [][]int{{2, 2}}, c35Domain(allA, []int{cAbsent, cAt7, cErr}, offs3, []int{oAbsent, oOK}), []c35Global{g2, g1j})
 	} else {
 		add("small-full", [][]int{{1}, {2}, {1, 1}}, c35Domain(allA, commitsQ, offs3, offs3), globalsAll)
 		add("small-extended", [][]int{{1}, {2}}, c35Domain(allA, commitsT, offs3, startsT), []c35Global{g2j, g0})
 		add("three-partitions", [][]int{{1, 2}, {2, 1}}, c35Domain(allA, []int{cAbsent, cAt3, cAt7, cErr}, offs3, []int{oAbsent, oOK}), []c35Global{g2, g1j, g0e})
-		add("four-partitions", [][]int{{2, 2}}, c35Domain([]int{-1, 0}, []int{cAbsent, cAt7, cErr}, offs3, []int{oAbsent, oOK}), []c35Global{g1j})
+		add("four-partitions", [][]int{{2, 2}}, c35Domain([]int{-1, 0}, []int{cAbsent, cAt7, cErr}, offs3, []int{oOK}), []c35Global{g1j})
+		add("four-partitions/no-starts", [][]int{{2, 2}}, c35Domain([]int{-1, 0}, []int{cAbsent, cAt3, cErr}, offs3, []int{oAbsent}), []c35Global{g2raw})
 	}
 	r.Set("stage_domains", domains)
 
@@ -549,8 +623,9 @@ func TestVerifC35(t *testing.T) {
 		fmt.Printf("OBSERVATION (outside the C35 statement, not a violation): %d reported listed-only partitions deviate from the lag formula, e.g. %s\n", obs.listedOnlyMismatch, obs.mismatchWhat)
 	}
 	sample := c35Case{Shape: []int{1, 2}, Global: g2j, Parts: []c35Part{{0, cAt7, oOK, oOK}, {1, cAbsent, oOK, oOK}, {-1, cErr, oOK, oAbsent}}}
-	if f, sig, _ := c35Check(&sample); f == nil {
+	if f, sig, _ := c35Check(&sample, nil); f == nil {
 		r.Sample(map[string]any{"case": sample, "outcome_signature": sig})
 	}
+	pprof.StopCPUProfile()
 	os.Exit(r.Write())
 }
